@@ -17,7 +17,7 @@ from vlib import log
 
 class KH:
     def __init__(self, name, tiers=("quick", "thorough"), vars=(), replay=None, role=None,
-                 min_covers=1, desc="", bounds="", functions=(), timeout_s=900):
+                 min_covers=1, desc="", bounds="", functions=(), timeout_s=900, replay_fn=None):
         self.name = name
         self.tiers = tiers
         self.vars = list(vars)          # named harness locals to read from the CBMC trace
@@ -28,6 +28,7 @@ class KH:
         self.bounds = bounds
         self.functions = list(functions)
         self.timeout_s = timeout_s
+        self.replay_fn = replay_fn      # optional custom native replay: fn(values) -> (reproduced|None, text)
 
 
 PRELUDE = os.path.join(vlib.VERIF, "kani", "harness", "_prelude.rs")
@@ -49,6 +50,9 @@ def native_replay(prop, injections, kh, values, extra=None):
     if extra:
         payload.update(extra)
     path = vlib.write_replay(prop, payload)
+    if kh.replay_fn is not None:
+        rep, out = kh.replay_fn(values)
+        return rep, path, out
     if not kh.replay:
         return None, path, "no native replay defined for this harness"
     with vlib.Scratch("native", tag=f"{prop}-replay") as scr:
